@@ -69,18 +69,21 @@ RECURSIVE Flat(_)
 Flat(ss) == IF ss = <<>> THEN <<>> ELSE Head(ss) \o Flat(Tail(ss))
 
 \* RespValue::encode.  A simple string / error is one line: CR and LF inside its text are written
-\* as spaces (clean = TRUE).  clean = FALSE is the pinned tree's encoder, which wrote the text raw.
+\* as spaces; a bulk string announces its length in BYTES.  mode = "clean" is that encoder; the other
+\* modes exist for self-tests only: "raw" wrote line text as it is (the pinned tree), "chars" announces
+\* the number of UTF-8 characters (bytes that are not continuation bytes 10xxxxxx) of a bulk string.
 Clean(s) == [i \in 1..Len(s) |-> IF s[i] \in {CR, LF} THEN SP ELSE s[i]]
+Chars(s) == Cardinality({i \in 1..Len(s) : s[i] \notin 128..191})
 RECURSIVE EncodeWith(_, _)
-EncodeWith(v, clean) ==
-    CASE v.t = "simple"   -> <<PLUS>> \o (IF clean THEN Clean(v.s) ELSE v.s) \o CRLF
-      [] v.t = "error"    -> <<MINUS>> \o (IF clean THEN Clean(v.s) ELSE v.s) \o CRLF
+EncodeWith(v, mode) ==
+    CASE v.t = "simple"   -> <<PLUS>> \o (IF mode = "raw" THEN v.s ELSE Clean(v.s)) \o CRLF
+      [] v.t = "error"    -> <<MINUS>> \o (IF mode = "raw" THEN v.s ELSE Clean(v.s)) \o CRLF
       [] v.t = "int"      -> <<COLON>> \o v.s \o CRLF
       [] v.t = "nullbulk" -> <<DOLLAR, MINUS, 49>> \o CRLF
-      [] v.t = "bulk"     -> <<DOLLAR>> \o Dec(Len(v.s)) \o CRLF \o v.s \o CRLF
-      [] v.t = "array"    -> <<STAR>> \o Dec(Len(v.a)) \o CRLF \o Flat([i \in 1..Len(v.a) |-> EncodeWith(v.a[i], clean)])
+      [] v.t = "bulk"     -> <<DOLLAR>> \o Dec(IF mode = "chars" THEN Chars(v.s) ELSE Len(v.s)) \o CRLF \o v.s \o CRLF
+      [] v.t = "array"    -> <<STAR>> \o Dec(Len(v.a)) \o CRLF \o Flat([i \in 1..Len(v.a) |-> EncodeWith(v.a[i], mode)])
       [] v.t = "null"     -> <<USCORE>> \o CRLF
-Encode(v) == EncodeWith(v, TRUE)
+Encode(v) == EncodeWith(v, "clean")
 
 \* ---------------------------------------------------------------- grammar
 Need == [k |-> "need"]
